@@ -88,6 +88,9 @@ macro "dk" : tactic =>
 @[simp] theorem K_initConn (c : C) (b : Bool) : K (initConn c b) = K c := rfl
 @[simp] theorem K_clearStoreRelated (c : C) : K (clearStoreRelated c) = K c := rfl
 @[simp] theorem K_decSendCount (c : C) : K (decSendCount c) = K c := by unfold decSendCount; dk
+@[simp] theorem K_releasePacketId (c : C) (id : Nat) : K (releasePacketId c id) = K c :=
+  releasePacketId_ind (Q := fun c' => K c' = K c) c id (K_releaseIfUsed _ _) (fun h => h)
+    (fun h => (K_decSendCount _).trans h)
 @[simp] theorem K_releaseAll (l : List Nat) : ∀ c, K (releaseAll c l) = K c := by
   induction l with
   | nil => intro c; rfl
